@@ -339,6 +339,9 @@ func trimStack(b []byte) string {
 		if strings.Contains(l, "runtime/debug.Stack") || strings.Contains(l, "vstat.Guard") || strings.HasPrefix(l, "panic") {
 			continue
 		}
+		if strings.HasPrefix(l, "pgregory.net/rapid.") || strings.HasPrefix(l, "testing.") {
+			break // the engine's frames differ between rapid's search, reproduce and shrink calls
+		}
 		out = append(out, "  "+l+" "+nx)
 		i++
 	}
